@@ -91,7 +91,7 @@ def define():
             huge(op, "none", elem, tier="thorough")
         import itertools
         for (o1, o2) in itertools.product(range(6), repeat=2):
-            heapseq("none", elem, 1, 1, [(o1, 2), (o2, 1), (2, 0)], tier="thorough" if elem in ("B3D", "Z0D") else "rot64")
+            heapseq("none", elem, 1, 1, [(o1, 2), (o2, 1), (2, 0)], tier="thorough")
     for tr in TR:
         for after in ("Nothing", "Push", "Remove", "Pop", "Clear"):
             rawparts(after, after in ("Remove", "Nothing"), tr, "B3D", capv=2, tier="thorough")
